@@ -276,6 +276,12 @@ example : J 0 [exSub, ex200 0, exN 0 0 0 0, .op (.setKey 0 4294967295), .op (.se
     exN 0 4294967295 0 5, .op (.set 0 (.int 6)), .obs (.trig 0 0), exN 0 0 0 6] = false := by decide
 -- J4: NOTIFY without a trigger
 example : J 0 [exSub, ex200 0, exN 0 0 0 0, .op (.set 0 (.int 5)), exN 0 1 0 5] = false := by decide
+-- J4: an attribution needs an unanswered change of that variable, and pays only at its own instant
+example : J 0 [exSub, ex200 0, exN 0 0 0 0, .obs (.trig 0 0), exN 0 1 0 0] = false := by decide
+example : J 0 [exSub, ex200 0, exN 0 0 0 0, .op (.set 0 (.int 5)), .obs (.trig 0 0), exN 0 1 0 5, .obs (.trig 0 0), exN 0 2 0 5]
+    = false := by decide
+example : J 0 [exSub, ex200 0, exN 0 0 0 0, .op (.set 0 (.int 5)), .op (.adv 7), .obs (.trig 0 0), exN 0 1 7 5] = false := by
+  decide
 -- J5: two triggers of one variable inside its interval
 example : J 200000 [exSub, ex200 0, exN 0 0 0 0, .op (.set 0 (.int 5)), .obs (.trig 0 0), exN 0 1 0 5, .op (.adv 100000),
     .op (.set 0 (.int 6)), .obs (.trig 0 100000), exN 0 2 100000 6] = false := by decide
